@@ -10,6 +10,7 @@ package pubsub
 import (
 	"context"
 	"fmt"
+	"regexp"
 	"strings"
 	"sync"
 	"time"
@@ -59,6 +60,8 @@ func genC14(seed uint64, tier string) *Plan {
 	// half of the workloads cancel in the MIDDLE of the API call at the cancellation position: the
 	// event loop is parked between receiving the request and handling it (verifLoopRequest)
 	p.Knobs["cancel_mid_call"] = float64(r.intn(2))
+	// ... and sometimes the loop stays busy for a while first (timers fire, hand-offs queue up behind it)
+	p.Knobs["mid_call_wait_ms"] = float64([]int{0, 0, 1500, 2500}[r.intn(4)])
 	genDegrees(r, p, 4)
 	add := func(op string, a ...int64) { p.Items = append(p.Items, Item{Op: op, A: a}) }
 	np := r.rng(1, 3)
@@ -438,6 +441,10 @@ func runC14(s *sim) {
 			}
 			if lg != nil {
 				s.probe("cancel_mid_call/" + name)
+				if d := p.ki("mid_call_wait_ms", 0); d > 0 {
+					s.probe("cancel_mid_call_after_busy_loop")
+					s.advance(time.Duration(d) * time.Millisecond)
+				}
 				shutdown()
 				s.release(lg, 0)
 				s.settle()
@@ -619,7 +626,7 @@ func runC14(s *sim) {
 					break
 				}
 			}
-			s.violate("C14", "goroutines", "C14/goroutine-left/"+strings.Trim(top, "./"), "%d library goroutine(s) still alive 2 minutes after shutdown and closing of all streams; first:\n%s", len(gl), trunc2(gl[0], 1500))
+			s.violate("C14", "goroutines", "C14/goroutine-left/"+strings.Trim(top, "./"), "%d library goroutine(s) still alive 2 minutes after shutdown and closing of all streams; first:\n%s", len(gl), trunc2(normStack(gl[0]), 1500))
 		} else {
 			s.probe("goroutine_scan_clean")
 		}
@@ -633,5 +640,20 @@ func trunc2(s string, n int) string {
 	if len(s) > n {
 		return s[:n] + "..."
 	}
+	return s
+}
+
+
+var (
+	reStackAddr = regexp.MustCompile(`0x[0-9a-f]+`)
+	reStackGoID = regexp.MustCompile(`goroutine [0-9]+`)
+)
+
+// normStack removes what differs between two executions of the same schedule (goroutine numbers,
+// addresses) from a stack dump, so that the violation text - which is part of the event digest -
+// replays exactly.
+func normStack(s string) string {
+	s = reStackAddr.ReplaceAllString(s, "0x?")
+	s = reStackGoID.ReplaceAllString(s, "goroutine N")
 	return s
 }
